@@ -445,12 +445,14 @@ class PathEnumerator:
                     if outcome in ('fall', 'continue'):
                         yield from iterate(n - 1, e2, a2)
                     elif outcome == 'break':
-                        yield e2, a2, 'fall'
+                        yield e2, a2, 'broke'
                     else:
                         yield e2, a2, outcome
             for n in self.unroll:
                 for e2, a2, outcome in iterate(n, list(head), self._invalidate(assumptions, head)):
-                    if outcome == 'fall' and st.orelse:
+                    if outcome == 'broke':
+                        yield e2, a2, 'fall'       # a break skips the else clause
+                    elif outcome == 'fall' and st.orelse:
                         yield from self._block(st.orelse, e2, a2)
                     else:
                         yield e2, a2, outcome
